@@ -220,7 +220,7 @@ pub const TOKENS: &[&str] = &[
     // a number (or a sign) directly followed by '#' or '|' : not a numeric literal as a whole
     "12#t", "1#", "7#:k", "1|", "-1#f", "+2#x10", "1.5#",
     // peculiar and ordinary identifiers
-    "...", ".a", "..", "a.b", "foo", "foo-bar", "λ", "λx", "x中", "!x", "<=", "*", "/", "a1", "a+", "e1", "E", "x", "set!", "a?", "?a?", "$", "%a", "&rest", "~", "^", "_", "a_b",
+    "@foo", "@", "a@b", "...", ".a", "..", "a.b", "foo", "foo-bar", "λ", "λx", "x中", "!x", "<=", "*", "/", "a1", "a+", "e1", "E", "x", "set!", "a?", "?a?", "$", "%a", "&rest", "~", "^", "_", "a_b",
 ];
 
 struct Cx {
@@ -242,6 +242,12 @@ const CONTEXTS: &[Cx] = &[
     Cx { name: "before-close-bracket", pre: "[", post: "]" },
     Cx { name: "before-comment", pre: "(", post: ";c\n)" },
     Cx { name: "bracket-dotted-tail", pre: "[a . ", post: "]" },
+    // under the quotation shorthands, adjacent and separated by trivia
+    Cx { name: "quoted", pre: "'", post: "" },
+    Cx { name: "unquote-space", pre: ", ", post: " " },
+    Cx { name: "unquote-splicing-in-list", pre: "(a ,@", post: ")" },
+    Cx { name: "unquote-comment", pre: ",;c\n", post: "" },
+    Cx { name: "quasiquote-space-in-vector", pre: "#(` ", post: ")" },
 ];
 
 /// Extract the slot value from the parse of context(token); None = shape not preserved.
@@ -324,6 +330,33 @@ fn slot(cx: &Cx, q: &Q, v: &Value) -> Option<Value> {
             let e: Vec<Value> = if q.brackets_vector { v.as_slice()?.to_vec() } else { elems(v)? };
             if e.len() == 1 {
                 Some(e[0].clone())
+            } else {
+                None
+            }
+        }
+        "quoted" | "unquote-space" | "unquote-comment" | "unquote-splicing-in-list" | "quasiquote-space-in-vector" => {
+            // the shorthand must have expanded to exactly (head X)
+            let (head, form): (&str, Value) = match cx.name {
+                "quoted" => ("quote", v.clone()),
+                "unquote-space" | "unquote-comment" => ("unquote", v.clone()),
+                "unquote-splicing-in-list" => {
+                    let e = elems(v)?;
+                    if e.len() != 2 || e[0] != a {
+                        return None;
+                    }
+                    ("unquote-splicing", e[1].clone())
+                }
+                _ => {
+                    let s = v.as_slice()?;
+                    if s.len() != 1 {
+                        return None;
+                    }
+                    ("quasiquote", s[0].clone())
+                }
+            };
+            let e = elems(&form)?;
+            if e.len() == 2 && e[0] == Value::symbol(head) {
+                Some(e[1].clone())
             } else {
                 None
             }
